@@ -248,9 +248,9 @@ PROPS = {
                    "aggLockHashSig/aggDepositData/aggValidatorRegistrations accept the honest partials and produce signatures valid under the group keys, and reject a forged partial.",
         level_note="Runs as an overlay test inside package dkg (no file written to /repo). crypto/rand inside FROST/kyber cannot be seeded, so replay repeats configuration and schedule, not key material. In the scheduled variants partial signatures are exchanged by the harness faithfully; the whole command (dkg.Run on every member: definition, sync protocol, exchanger, ceremony, aggregation, lock / keystore files) runs in TestC11FullRun over loopback TCP on wall-clock time, where a ceremony that ends with an error is skipped (the property speaks of successful ceremonies) and a majority of failed ceremonies makes the run inconclusive.",
         runs={
-            "quick": [dict(test="TestC11FrostSchedules", checks=40, shards=4, env={"VERIF_C11_MAXN": "8"}), dict(test="TestC11FrostP2P", checks=10, shards=4), dict(test="TestC11Pedersen", bin="pedersen", checks=25, shards=2),
+            "quick": [dict(test="TestC11FrostSchedules", checks=40, shards=4, env={"VERIF_C11_MAXN": "8"}), dict(test="TestC11FrostP2P", checks=10, shards=4), dict(test="TestC11OddDealer", checks=12), dict(test="TestC11Pedersen", bin="pedersen", checks=25, shards=2),
                       dict(test="TestC11FullRun", bin="pedersen", checks=2, shards=3, shrinktime="1s", env={"VERIF_C11_FULL_MAXN": "4"})],
-            "thorough": [dict(test="TestC11FrostSchedules", checks=400, shards=10, timeout=3000), dict(test="TestC11FrostP2P", checks=120, shards=6, timeout=3000), dict(test="TestC11Pedersen", bin="pedersen", checks=400, shards=6, timeout=3000, env={"VERIF_C11_MAXN": "8"}),
+            "thorough": [dict(test="TestC11FrostSchedules", checks=400, shards=10, timeout=3000), dict(test="TestC11FrostP2P", checks=120, shards=6, timeout=3000), dict(test="TestC11OddDealer", checks=300, shards=2, timeout=3000), dict(test="TestC11Pedersen", bin="pedersen", checks=400, shards=6, timeout=3000, env={"VERIF_C11_MAXN": "8"}),
                          dict(test="TestC11FullRun", bin="pedersen", checks=12, shards=8, shrinktime="1s", timeout=3000, env={"VERIF_C11_FULL_MAXN": "6"})],
         },
     ),
